@@ -521,16 +521,7 @@ class IndexOps:
         st, s = call(snap_index, r)
         if st == 'ok':
             learn_index(m2, s)
-        if self.profile == 'C09':
-            # C09 is about growth; a derived object that is inconsistent from birth is not its concern
-            try:
-                self.check_ent(e2, op, full=True)
-            except Violation:
-                del self.ents[e2.h]
-                self.stats['derived_inconsistent_at_birth'] += 1
-                return 'inconsistent:' + cname
-        else:
-            self.check_ent(e2, op, full=True)
+        self.check_ent(e2, op, full=True)
         return 'ok:' + cname
 
     # ------------------------------------------------------------------ oracles
@@ -612,4 +603,14 @@ class IndexOps:
             st, c = call(lambda: fresh in obj)
             if st == 'raise' or c is not False:
                 fail(o, f'fresh label membership -> {c!r}')
+            # membership is true *exactly* for held labels: labels of the generator's pools that are not held
+            # (e.g. appended to a container this one was derived from, or to one derived from it) are not members
+            pool = (STRS + INTS + [100 + i for i in range(4)]) if m.unit is None else [np.datetime64(x, m.unit) for x in DATES[m.unit]]
+            held = set(exp_labels)
+            for x in pool:
+                if norm(x) in held or any(type(r) is not np.datetime64 and r == x for r in m.raw):
+                    continue  # held (label equality is Python equality: True == 1)
+                st, c = call(lambda: x in obj)
+                if st == 'ok' and c is not False:
+                    fail(o, f'label {x!r} is not held (held: {m.raw!r:.200}) but reported as a member')
             return
